@@ -9,6 +9,7 @@ import (
 	"errors"
 	"fmt"
 	"io"
+	"os"
 	"runtime"
 	"sort"
 	"strconv"
@@ -33,7 +34,7 @@ const tErr = "TestErrorContract"
 // Fault is one planned failure of the user function.
 type Fault struct {
 	Pos      int    `json:"pos"`
-	Kind     string `json:"kind"` // error | wrapped | panic-error | panic-string | panic-value | panic-eof | panic-skip | panic-ctx | skip | eof | abort | ctx
+	Kind     string `json:"kind"` // error | wrapped | lookalike | panic-error | panic-string | panic-value | panic-eof | panic-skip | panic-ctx | skip | eof | abort | ctx
 	Excluded bool   `json:"excluded"`
 	// Slow: the call fails late - it waits (bounded) until another call's
 	// stopping failure has returned and then a little longer, so that its
@@ -56,8 +57,11 @@ type Case struct {
 	// prepared WorkerGroupConf through WorkerGroupConfSet carrying the
 	// first exclusion, the rest added afterwards)
 	OptionForm string `json:"option_form,omitempty"`
-	Yields     []int  `json:"yields"`
-	Procs      int    `json:"gomaxprocs"`
+	// NilExclusions: that many nil entries precede the excluded errors in
+	// the list (an optional sentinel that is not set); they exclude nothing
+	NilExclusions int   `json:"nil_exclusions,omitempty"`
+	Yields        []int `json:"yields"`
+	Procs         int   `json:"gomaxprocs"`
 }
 
 func goid() int {
@@ -73,12 +77,26 @@ func goid() int {
 
 type panicValue struct{ n int }
 
+// timeoutError is what a network read past its deadline looks like.
+type timeoutError struct{}
+
+func (timeoutError) Error() string   { return "i/o timeout" }
+func (timeoutError) Timeout() bool   { return true }
+func (timeoutError) Temporary() bool { return true }
+
+// lookalikes are failures that resemble the sentinels the worker groups
+// treat specially (end of input, expired context) without being them.
+var lookalikes = []error{os.ErrDeadlineExceeded, io.ErrUnexpectedEOF, errors.New("EOF"), errors.New("context canceled"), timeoutError{}, io.ErrClosedPipe}
+
 // stops says whether the fault ends the run in this configuration, and
 // reported whether errors.Is must find it afterwards.
 func (c *Case) classify(f Fault) (stops, reported bool) {
 	switch f.Kind {
 	case "error", "wrapped":
 		return !c.ContinueOnError, !f.Excluded
+	case "lookalike":
+		// an ordinary failure that merely resembles one of the sentinels
+		return !c.ContinueOnError, true
 	case "abort":
 		return !c.ContinueOnError, true
 	case "panic-error", "panic-string", "panic-value", "panic-eof", "panic-skip", "panic-ctx":
@@ -163,6 +181,8 @@ func (r *run) body(ctx context.Context, v int) error {
 		return base
 	case "wrapped":
 		return fmt.Errorf("wrapped: %w", base)
+	case "lookalike":
+		return fmt.Errorf("%w: %w", base, lookalikes[v%len(lookalikes)])
 	case "panic-error":
 		panic(base)
 	case "panic-string":
@@ -216,6 +236,9 @@ func runCase(c *Case) (string, string, *run) {
 			excluded = append(excluded, r.bases[f.Pos])
 		}
 	}
+	if len(excluded) > 0 && c.NilExclusions > 0 {
+		excluded = append(make([]error, c.NilExclusions), excluded...)
+	}
 	switch {
 	case len(excluded) == 0:
 	case c.OptionForm == "split":
@@ -223,10 +246,10 @@ func runCase(c *Case) (string, string, *run) {
 			opts = append(opts, fun.WorkerGroupConfAddExcludeErrors(e))
 		}
 	case c.OptionForm == "set":
-		base := &fun.WorkerGroupConf{NumWorkers: c.Workers, ContinueOnError: c.ContinueOnError, ContinueOnPanic: c.ContinueOnPanic, IncludeContextExpirationErrors: c.IncludeCtx, ExcludedErrors: []error{excluded[0]}}
+		base := &fun.WorkerGroupConf{NumWorkers: c.Workers, ContinueOnError: c.ContinueOnError, ContinueOnPanic: c.ContinueOnPanic, IncludeContextExpirationErrors: c.IncludeCtx, ExcludedErrors: excluded[:c.NilExclusions+1]}
 		opts = []fun.OptionProvider[*fun.WorkerGroupConf]{fun.WorkerGroupConfSet(base)}
-		if len(excluded) > 1 {
-			opts = append(opts, fun.WorkerGroupConfAddExcludeErrors(excluded[1:]...))
+		if len(excluded) > c.NilExclusions+1 {
+			opts = append(opts, fun.WorkerGroupConfAddExcludeErrors(excluded[c.NilExclusions+1:]...))
 		}
 	default:
 		opts = append(opts, fun.WorkerGroupConfAddExcludeErrors(excluded...))
@@ -348,7 +371,7 @@ loop:
 		anyStop = anyStop || stops
 		base := r.bases[f.Pos]
 		switch f.Kind {
-		case "error", "wrapped":
+		case "error", "wrapped", "lookalike":
 			if reported {
 				anyReportable = true
 				if !errors.Is(result, base) {
@@ -452,7 +475,7 @@ loop:
 	return "", "", r
 }
 
-var faultKinds = []string{"error", "error", "wrapped", "panic-error", "panic-string", "panic-value", "panic-eof", "panic-skip", "panic-ctx", "skip", "eof", "abort", "ctx"}
+var faultKinds = []string{"error", "error", "wrapped", "lookalike", "panic-error", "panic-string", "panic-value", "panic-eof", "panic-skip", "panic-ctx", "skip", "eof", "abort", "ctx"}
 
 func genCase(t *rapid.T) *Case {
 	c := &Case{
@@ -466,6 +489,9 @@ func genCase(t *rapid.T) *Case {
 		Yields:          rapid.SliceOfN(rapid.IntRange(0, 3), 1, 5).Draw(t, "yields"),
 		Procs:           rapid.SampledFrom([]int{1, 2, 4, 16}).Draw(t, "gomaxprocs"),
 		OptionForm:      rapid.SampledFrom([]string{"options", "options", "split", "set"}).Draw(t, "optionForm"),
+	}
+	if rapid.IntRange(0, 3).Draw(t, "nilExclusions") == 0 {
+		c.NilExclusions = rapid.IntRange(1, 2).Draw(t, "nilExclusionCount")
 	}
 	nf := rapid.IntRange(0, 3).Draw(t, "faults")
 	used := map[int]bool{}
